@@ -701,15 +701,25 @@ func (lb *LoadBalancer) proxyRequest(backend *Backend, w http.ResponseWriter, r 
 		statusCode:     http.StatusOK, // Default status code
 	}
 
+	// Release the connection and record the outcome even when the proxy aborts the
+	// response by panicking (http.ErrAbortHandler after a mid-body backend failure)
+	completed := false
+	defer func() {
+		// Decrement the connection count when done
+		backend.DecrementConnections()
+		lb.metricsCollector.UpdateBackendConnections(backend.Name, backend.GetActiveConnections())
+
+		if !completed {
+			rw.statusCode = http.StatusBadGateway
+		}
+
+		// Record metrics and handle passive health checks
+		lb.recordRequestMetrics(backend, rw.statusCode, startTime, r)
+	}()
+
 	// Forward the request to the selected backend
 	backend.ReverseProxy.ServeHTTP(rw, r)
-
-	// Decrement the connection count when done
-	backend.DecrementConnections()
-	lb.metricsCollector.UpdateBackendConnections(backend.Name, backend.GetActiveConnections())
-
-	// Record metrics and handle passive health checks
-	lb.recordRequestMetrics(backend, rw.statusCode, startTime, r)
+	completed = true
 
 	return nil
 }
